@@ -121,7 +121,7 @@ package fragswarm
 
 //@ func (*swarm).handleTell
 //@   noframe
-//@   requires s.aggs != nil && mapvals_nonnil(s.aggs)
+//@   requires s.aggs != nil && mapvals_nonnil(s.aggs) && inv(s.tells)
 //@   fnspec MarshalText:
 //@     pure
 //@   before call keyForAddr:
